@@ -5,11 +5,14 @@ OPTS = [dict(), dict(p_validate=0.6, p_enable=0.5), dict(p_nested=0.35, p_rel=0.
         # nested bodies / ready-dependent orderings reached only through wrapper methods
         dict(p_nested=0.5, max_m=4, max_t=3, p_rel=0.6, p_struct=0.3, _weight=2),
         # validation of arguments that were forwarded down a call chain
-        dict(p_fwdarg=0.9, p_validate=0.7, p_enable=0.3, max_m=4, max_t=3, p_nonexcl=0.05, p_struct=0.3, _weight=2)]
+        dict(p_fwdarg=0.9, p_validate=0.7, p_enable=0.3, max_m=4, max_t=3, p_nonexcl=0.05, p_struct=0.3, _weight=2),
+        # the same grammar built through the sugar API: Methods vectors, @def_methods over groups of sibling bodies
+        # (ready per index), Methods.provide / Methods.__call__ aliases
+        dict(p_sugar=1.0, sugar_mode="vec", max_m=6, max_t=3, p_struct=0.2, p_body_in_struct=0.0, p_validate=0.05, p_nonexcl=0.1, p_nested=0.3, p_alias=0.4)]
 
 
 def run(rep):
-    core_check(rep, "C03", [dict(o) for o in OPTS], 96, 2400, nontrivial_key="impl_designs_built")
+    core_check(rep, "C03", [dict(o) for o in OPTS], 112, 2800, nontrivial_key="impl_designs_built")
     rep.coverage["rule"] = ("random designs from vlib/coregen.py's grammar built with the real API, every valuation of the "
                             "control inputs (or random ones when there are many), both directions bound by TxnCoreTrace; "
                             "clause RunImpliesEnabled (readiness of the whole static call tree, validation of would-be-active calls, run of ready-dependencies); distinct_nontrivial = built designs")
